@@ -857,7 +857,102 @@ def case_shared(ctx, inp):
         ctx.branch("shared: keepdims + reduced axis in ONE chunk (the block object itself reaches the chunk function)")
 
 
-CASES = {"joint": case_joint, "shared": case_shared, "plan": case_plan, "depth": case_depth, "blsched": case_blsched, "reduce": case_reduce,
+# ---------------------------------------------------------------------------------------------
+# var / std: moment_chunk / moment_combine / moment_agg vs the Lean model over exact rationals
+# ---------------------------------------------------------------------------------------------
+
+def _rat(x):
+    from fractions import Fraction
+    f = Fraction(float(x))
+    return [f.numerator, f.denominator]
+
+
+def _ratf(r):
+    return r[0] / r[1]
+
+
+def _close(a, b, scale):
+    return abs(a - b) <= 1e-9 * max(1.0, scale, abs(a), abs(b))
+
+
+def case_moment(ctx, inp):
+    """Function level: the real moment_chunk on every block, the real moment_combine on every group of partials, the
+    real moment_agg on the combined partials — each against the Lean functions (exact rationals; the real code's float
+    inputs are passed exactly), the final value against np.var and against the Lean tree with dask's own depth."""
+    from dask.array import reductions as R
+    da = _da()
+    blocks, ddof, k = inp["blocks"], inp["ddof"], inp["k"]
+    arrs = [np.array(b, dtype="f8") for b in blocks]
+    flat = np.concatenate(arrs) if arrs else np.array([], dtype="f8")
+    scale = float(np.sum(np.abs(flat)) ** 2) + 1.0
+    with warnings.catch_warnings():
+        warnings.simplefilter("ignore")
+        parts = [R.moment_chunk(a, order=2, axis=(0,), keepdims=True) for a in arrs]
+    mparts = []
+    for b, p in zip(blocks, parts):
+        m = ctx.lean(Sym("momchunk"), [int(v) for v in b])
+        mparts.append(m)
+        got = [int(p["n"][0]), float(p["total"][0]), float(p["M"][0, 0])]
+        if m[0] != got[0] or not _close(_ratf(m[1]), got[1], scale) or (m[0] and not _close(_ratf(m[2]), got[2], scale)):
+            ctx.disagree("moment_chunk (n, total, M2)", [m[0], _ratf(m[1]), _ratf(m[2])], got)
+    # groups of k partials -> moment_combine (one tree level), then moment_agg over the combined partials
+    groups = [list(range(i, min(i + k, len(blocks)))) for i in range(0, len(blocks), k)]
+    comb_real, comb_model = [], []
+    for g in groups:
+        with warnings.catch_warnings():
+            warnings.simplefilter("ignore")
+            c = R.moment_combine([parts[i] for i in g], order=2, axis=(0,))
+        # the model is applied to the REAL partials (exact values of their floats): the diff is about this function only
+        real_in = [[int(parts[i]["n"][0]), _rat(parts[i]["total"][0]), _rat(parts[i]["M"][0, 0])] for i in g]
+        m = ctx.lean(Sym("momcombine"), real_in)
+        got = [int(c["n"][0]), float(c["total"][0]), float(c["M"][0, 0])]
+        if not (np.isfinite(got[1]) and np.isfinite(got[2])):
+            ctx.fail("moment_combine of finite partials returned a non-finite total / M2", observed=got,
+                     expected=[m[0], _ratf(m[1]), _ratf(m[2])])
+            return
+        if m[0] != got[0] or not _close(_ratf(m[1]), got[1], scale) or (m[0] and not _close(_ratf(m[2]), got[2], scale)):
+            ctx.disagree("moment_combine (n, total, M2)", [m[0], _ratf(m[1]), _ratf(m[2])], got)
+        comb_real.append(c)
+        comb_model.append(ctx.lean(Sym("momcombine"), [mparts[i] for i in g]))
+    with warnings.catch_warnings():
+        warnings.simplefilter("ignore")
+        v = R.moment_agg(comb_real, order=2, ddof=ddof, axis=(0,), keepdims=False)
+        ref = np.var(flat, ddof=ddof) if flat.size else float("nan")
+    v = float(np.asarray(v).ravel()[0])
+    real_in = [[int(c["n"][0]), _rat(c["total"][0]), _rat(c["M"][0, 0])] for c in comb_real]
+    m = ctx.lean(Sym("momagg"), ddof, real_in)
+    m2 = ctx.lean(Sym("momagg"), ddof, comb_model)
+    n = int(flat.size)
+    if n <= ddof:
+        if m is not None or m2 is not None:
+            ctx.disagree("moment_agg: degrees of freedom <= 0 must be undefined in the model", m, None)
+        if np.isfinite(v):
+            ctx.fail("var with n - ddof <= 0 returned a finite value", observed=v)
+        ctx.branch("dof <= 0")
+    else:
+        if m is None or not _close(_ratf(m), v, scale):
+            ctx.disagree("moment_agg value", None if m is None else _ratf(m), v)
+        if m2 is None or not _close(_ratf(m2), float(ref), scale):
+            ctx.disagree("Lean chunk→combine→agg value vs np.var", None if m2 is None else _ratf(m2), float(ref))
+        if not _close(v, float(ref), scale):
+            ctx.fail("moment_chunk → moment_combine → moment_agg differs from np.var", observed=v, expected=float(ref))
+        # whole tree with the depth of the _tree_reduce loop (theorem var_eq_numpy + tree_dask_depth)
+        if len(blocks) >= 1 and k >= 2:
+            d, _ = ctx.lean(Sym("treedepth"), [k], [len(blocks)])
+            t = ctx.lean(Sym("vartree"), ddof, k, d, [[int(x) for x in b] for b in blocks])
+            if t[0] != "ok" or t[1] is None or not _close(_ratf(t[1]), float(ref), scale):
+                ctx.disagree("Lean var tree (dask depth) vs np.var", t, float(ref))
+        x = da.concatenate([da.from_array(a, chunks=(max(len(a), 1),)) for a in arrs]) if len(arrs) > 1 else da.from_array(arrs[0], chunks=-1)
+        dv = float(U.sync_compute(da.var(x, ddof=ddof, split_every=k)))
+        if not _close(dv, float(ref), scale):
+            ctx.fail("da.var differs from np.var", observed=dv, expected=float(ref))
+    if any(len(b) == 0 for b in blocks):
+        ctx.branch("empty block")
+    if len(groups) > 1:
+        ctx.branch("several combine groups")
+
+
+CASES = {"joint": case_joint, "moment": case_moment, "shared": case_shared, "plan": case_plan, "depth": case_depth, "blsched": case_blsched, "reduce": case_reduce,
          "arg": case_arg, "cum": case_cum, "topk": case_topk, "quant": case_quant}
 CASES = {k: U.pure_sources(v) for k, v in CASES.items()}
 
@@ -1101,6 +1196,16 @@ def gen_joint(ctx, n):
                         "chunks2": [list(c) for c in U.rand_chunks(rng, shape)]}
 
 
+def gen_moment(ctx, n):
+    rng = ctx.rng
+    for _ in range(n):
+        nb = rng.randint(1, 7)
+        blocks = [[rng.randint(-6, 6) for _ in range(rng.choice([0, 1, 1, 2, 3, 4]))] for _ in range(nb)]
+        if not any(blocks):
+            blocks[rng.randrange(nb)] = [rng.randint(-6, 6)]
+        yield "moment", {"blocks": blocks, "ddof": rng.choice([0, 0, 1, 2]), "k": rng.choice([2, 2, 3, 4])}
+
+
 def gen_shared(ctx, n):
     """targets that sort / partition (median, quantile, percentile, topk, argtopk) and ordinary ones × the scenarios in
     which a block is read more than once; the reduced axis lies in ONE chunk in most cases and keepdims is mostly on
@@ -1195,6 +1300,7 @@ def generate(ctx):
     for n, k in pts:
         yield "depth", {"n": n, "k": k}
     yield from gen_plan(ctx, ctx.n(200, 2500))
+    yield from gen_moment(ctx, ctx.n(120, 1500))
     # API level
     yield from _exhaustive_small(ctx)
     yield from _exhaustive_nd(ctx)
